@@ -96,12 +96,31 @@ func raFrame(ethSrc net.HardwareAddr, src netip.Addr, msg []byte) []byte {
 	return lib.MkEther(lib.HostMAC, ethSrc, 0x86dd, lib.MkIP6(src, allN, 58, 255, msg))
 }
 
-// deliver pushes one RA through Parse + ProcessPacket with the counter preset.
-func deliver(s *packet.Session, h *icmp_spoofer.Handler6, counter int, ethSrc net.HardwareAddr, src netip.Addr, msg []byte, hostKnown bool) (ret string) {
-	if zeroLenOption(msg) {
-		return "zero-length-option-not-run"
+// rxBuf is ONE receive buffer per handler under test, as in a real read loop: every packet is
+// copied into it, parsed in place (Parse is zero-copy) and processed; afterwards the buffer is
+// overwritten (poison, then the next packet).  Anything the handler retained by reference instead
+// of by copy changes under its feet and shows up in the router table read later.
+type rxBuf struct{ b []byte }
+
+func newRxBuf() *rxBuf { return &rxBuf{b: make([]byte, 2048)} }
+
+func (x *rxBuf) load(frame []byte) []byte {
+	n := copy(x.b, frame)
+	for i := n; i < len(x.b); i++ {
+		x.b[i] = 0xee // spare capacity behind the frame
 	}
-	f, err := s.Parse(raFrame(ethSrc, src, msg))
+	return x.b[:n]
+}
+func (x *rxBuf) poison() {
+	for i := range x.b {
+		x.b[i] = 0xa5
+	}
+}
+
+// deliver pushes one ICMPv6 message through Parse + ProcessPacket with the counter preset.
+func deliver(s *packet.Session, h *icmp_spoofer.Handler6, rx *rxBuf, counter int, ethSrc net.HardwareAddr, src netip.Addr, msg []byte, hostKnown bool) (ret string) {
+	defer rx.poison()
+	f, err := s.Parse(rx.load(raFrame(ethSrc, src, msg)))
 	if err != nil {
 		return "parse:" + errName(err)
 	}
@@ -214,11 +233,29 @@ func showRouterAll(r icmp_spoofer.Router) string {
 		showDS(r.Options.DNSSearchList), showRI(r.Options.RouteInformation), showRIP(r.Options.RouteInformation))
 }
 
+// showTable: default router, number of routers and EVERY router record, sorted by address.
+func showTable(h *icmp_spoofer.Handler6) string {
+	h.Lock()
+	def := "-"
+	if h.Router != nil {
+		a := h.Router.Addr.IP.As16()
+		def = hx(a[:])
+	}
+	var l []string
+	for _, r := range h.LANRouters {
+		l = append(l, " ["+showRouterAll(*r)+"]")
+	}
+	n := len(h.LANRouters)
+	h.Unlock()
+	sort.Strings(l) // the address is the leading field
+	return fmt.Sprintf("def=%s n=%d%s", def, n, strings.Join(l, ""))
+}
+
 // runRA: fresh handler, counter 3 -> 4 (processed), host known, standard source.
 func runRA(msg []byte) (ret string, r icmp_spoofer.Router, found bool) {
 	s := session()
 	h, _ := icmp_spoofer.New6(s)
-	ret = deliver(s, h, 3, lib.RouterMAC, srcLLA, msg, true)
+	ret = deliver(s, h, newRxBuf(), 3, lib.RouterMAC, srcLLA, msg, true)
 	if ret != "ok" {
 		return ret, r, false
 	}
@@ -260,7 +297,7 @@ func main() {
 	}
 	seen := map[string]bool{}
 	emit := func(class string, msg []byte) {
-		if zeroLenOption(msg) || hasXN(msg) {
+		if hasXN(msg) {
 			r.Stat("gen.rejected", 1)
 			return
 		}
